@@ -33,7 +33,7 @@ RULE = ("1-4 destinations (one always-healthy reference at a random position, th
         "with a message of its own, a FileDestination whose json_default logs a diagnostic, optionally a failing one in between) run as a one-thread "
         "schedule: no self-deadlock, every destination offered every outer and nested message exactly once, reports == failed deliveries. part 'interrupted_report': 2-3 destinations fail on one message and the delivery of the first report "
         "is cut short by a non-Exception from another destination: the healthy destination (registered first) is still offered one report per failure. A quarter of the random programs run inside an action bound to a logger object of its "
-        "own, half of the hand-overs happen inside an open action (a third of those inside an action bound to a MemoryLogger: recorded finding). Destination exceptions include ones whose text is the empty string (raised without arguments). part 'deferred': a destination schedules follow-up work for what it is offered, reports included (loop.call_soon, a new asyncio task, a saved copy_context()), which later logs a message of its own; a failure on that message is reported like any other. The rendering clause of the accounting oracle also demands, for every field of the affected message (as the failing destination was offered it) whose value is an int/str/float/bool/None or a list/tuple/dict of those, that the report's message text - read as the dict display of repr texts it is - shows the field's name together with repr(value); values of other classes are not judged. part 'tuples': messages, action start fields, success fields and action.log messages whose fields are or hold tuples ((), one-element tuples, pairs, nested tuples, lists of tuples, dicts with tuple keys/values) go to 1-2 raising recording destinations and the reference, same accounting. part 'mainmodule': fresh interpreters started as `python -m prog`, `python -m pkg` (pkg/__main__.py), `python -m pkg.tool`, `python prog.py` and `python -c` (tree under test first on PYTHONPATH) run a program whose failing destination raises an exception class defined in that main module: the report's exception field equals the type(e).__module__ + '.' + type(e).__name__ the program computed itself (reason, one report per failure and position behind the affected message are judged too). non-trivial = >=2 faulty destinations or a mask that hits a report; distinct by (program shape, masks)")
+        "own, half of the hand-overs happen inside an open action (a third of those inside an action bound to a MemoryLogger: recorded finding). Destination exceptions include ones whose text is the empty string (raised without arguments). part 'deferred': a destination schedules follow-up work for what it is offered, reports included (loop.call_soon, a new asyncio task, a saved copy_context()), which later logs a message of its own; a failure on that message is reported like any other. The rendering clause of the accounting oracle also demands, for every field of the affected message (as the failing destination was offered it) whose value is an int/str/float/bool/None or a list/tuple/dict of those, that the report's message text - read as the dict display of repr texts it is - shows the field's name together with repr(value); values of other classes are not judged. part 'tuples': messages, action start fields, success fields and action.log messages whose fields are or hold tuples ((), one-element tuples, pairs, nested tuples, lists of tuples, dicts with tuple keys/values) go to 1-2 raising recording destinations and the reference, same accounting. part 'mainmodule': fresh interpreters started as `python -m prog`, `python -m pkg` (pkg/__main__.py), `python -m pkg.tool`, `python prog.py` and `python -c` (tree under test first on PYTHONPATH) run a program whose failing destination raises an exception class defined in that main module: the report's exception field equals the type(e).__module__ + '.' + type(e).__name__ the program computed itself (reason, one report per failure and position behind the affected message are judged too). non-trivial = >=2 faulty destinations or a mask that hits a report; distinct by (program shape, masks)" " part 'signals': a Python signal handler that itself logs, delivered at EVERY point inside the program's logging calls at which CPython can run one (vf/sigreent.py; one forked process per point), with a destination failing on every n-th call registered before or between two accepting destinations: both accepting destinations are offered every message exactly once (the same multiset), every failed delivery is reported exactly once, no call raises.")
 ASSUMPTIONS = ["destinations raise Exception subclasses (part 'interrupted_report' alone lets one raise a non-Exception, and only while it is offered a failure report)", "under concurrency only per-destination sets, per-thread order and report counts are judged "
                "(destinations may legitimately see different total orders)"]
 EXHAUSTIVE_NOTE = "part 'enum' enumerates every failure mask over the first K calls of D destinations"
@@ -51,6 +51,8 @@ def plan(tier, seed):
             specs.append({"part": "enum", "seed": seed, "D": D, "K": K, "lo": lo, "hi": min(total, lo + step)})
     for j in range(2 if tier == "quick" else 8):
         specs.append({"part": "storm", "seed": seed, "i": j})
+    for j in range(8 if tier == "quick" else 64):
+        specs.insert(0, {"part": "signals", "seed": seed, "i": j})  # (long cases first)
     for j in range(600 if tier == "quick" else 6000):
         specs.append({"part": "prebuffered", "seed": seed, "i": j})
     for j in range(16 if tier == "quick" else 200):
@@ -1073,8 +1075,53 @@ def part_threads(spec, res):
         execute(p, "sampled")
 
 
+def part_signals(spec, res):
+    """The fan-out under same-thread re-entry: a signal handler that logs is delivered at every point inside the program's logging calls at
+    which CPython can run one (vf/sigreent.py), with a destination that fails on every n-th call registered before or between two accepting
+    destinations. One forked process per point."""
+    from vf import sigreent
+    from vf.forkrun import call_in_fork
+    i = spec["i"]
+    rng = random.Random("%s:C08:sig:%d" % (spec["seed"], i // 2))
+    prog = sigreent.gen_program(rng)
+    hk = ["msg", "action", "typed", "msg"][i % 4]
+    fo = {"before": i % 2 == 0, "fail_every": 2 + (i // 2) % 3}
+    c = res["counters"]
+    res["sets"]["signal_points"] = []
+    kind, base = call_in_fork(lambda: sigreent.run_once(prog, 0, hk, fo), timeout=120)
+    if kind != "ok" or base.get("skip"):
+        res["inconclusive"] = "signals: baseline run %s %s" % (kind, str(base)[-200:])
+        return
+    for k in range(1, base["points"] + 1):
+        kind, d = call_in_fork(lambda: sigreent.run_once(prog, k, hk, fo), timeout=120)
+        res["evals"] += 1
+        if kind in ("timeout", "died"):
+            res["inconclusive"] = "signals: child %s at point %d" % (kind, k)
+            return
+        problems = []
+        if kind != "ok":
+            problems.append("run failed: %s" % str(d)[-400:])
+        else:
+            if d["handler_runs"] != 1:
+                continue
+            c["signal_handlers_run_inside_the_fan_out"] = c.get("signal_handlers_run_inside_the_fan_out", 0) + int(bool(d["fired"]) and "_send" in d["fired"])
+            c["signal_handlers_run_inside_a_logging_call"] = c.get("signal_handlers_run_inside_a_logging_call", 0) + 1
+            c["failed_deliveries_with_a_signal_handler_logging"] = c.get("failed_deliveries_with_a_signal_handler_logging", 0) + len(d["faulty"]["failed"])
+            res["sets"]["signal_points"].append(d["fired"])
+            res["nontrivial"].append(h(["sig", i, k]))
+            sigreent.judge_fanout(d, problems)
+        if problems and len(res["violations"]) < 3:
+            where = d["fired"] if kind == "ok" else "?"
+            res["violations"].append({"msg": "a signal handler that logs (%s) ran at %s, in the middle of a logging call, with a failing destination %s the accepting ones: %s" % (
+                hk, where, "before" if fo["before"] else "between", problems[0]), "mech": None,
+                "detail": {"part": "signals", "program": prog, "handler": hk, "fanout": fo, "point": k, "landed_at": where, "problems": problems[:5]}})
+
+
 def run_case(spec):
     res = {"evals": 0, "nontrivial": [], "counters": {}, "violations": [], "sample": None, "sets": {"interleavings": [], "preemption_lines": []}}
+    if spec["part"] == "signals":
+        part_signals(spec, res)
+        return res
     if spec["part"] == "prebuffered":
         part_prebuffered(spec, res)
         return res
@@ -1174,6 +1221,8 @@ def finalize(agg, tier):
         return "too few failed deliveries / failures on reports observed"
     if c.get("prebuffered_runs", 0) < 100 or c.get("thread_schedules_run", 0) < 500:
         return "too few prebuffered runs / thread schedules"
+    if c.get("signal_handlers_run_inside_the_fan_out", 0) < 100 or c.get("failed_deliveries_with_a_signal_handler_logging", 0) < 100:
+        return "part 'signals': fewer than 100 logging signal handlers ran inside the fan-out loop / fewer than 100 failed deliveries there"
     if c.get("failures_on_messages_logged_by_deferred_work", 0) < 20 or c.get("deferred_work_scheduled_while_a_report_was_delivered", 0) < 20:
         return "part 'deferred' rarely reached a failure on a message logged by work scheduled while a report was being delivered"
     if c.get("report_rendering_fields_judged", 0) < 1000:
